@@ -132,15 +132,18 @@ def make_builder(h, w, cfg, **kw):
     return SegmentationBuilder2D(h, w, min_num_blocks=mnb, max_num_blocks=mxb, min_block_size=mns, max_block_size=mxs, **kw)
 
 
-def successors(part, b, blocks, h, w, cfg, case):
-    """All successors of `blocks` (list of lists): union over the seed-pair sweep.  Checks immutability."""
+def successors(part, b, blocks, h, w, cfg, case, max_offsets=None):
+    """All successors of `blocks` (list of lists): union over the seed-pair sweep.  Checks immutability.
+    max_offsets: evenly spaced subset of the n^2 seed pairs (state families on boards too large for the full sweep)."""
     from cspuz.generator import segmentation as seg
 
     out = {}
     maxn = max(len(x) for x in blocks)
     snapshot = copy.deepcopy(blocks)
     history = []
-    for offset in range(maxn * maxn):
+    total = maxn * maxn
+    offsets = range(total) if not max_offsets or total <= max_offsets else sorted(set(total * k // max_offsets for k in range(max_offsets)))
+    for offset in offsets:
         set_source(seg, Scripted(offset))
         try:
             cands = b.candidates(blocks)
@@ -302,6 +305,85 @@ def explore_partial(part, h, w, holes, cfg, state_cap):
         restore_source(seg, saved)
 
 
+def comps(cells):
+    cells = set(cells)
+    out = []
+    while cells:
+        start = min(cells)
+        seen = {start}
+        stack = [start]
+        while stack:
+            y, x = stack.pop()
+            for c in ((y + 1, x), (y - 1, x), (y, x + 1), (y, x - 1)):
+                if c in cells and c not in seen:
+                    seen.add(c)
+                    stack.append(c)
+        out.append(sorted(seen))
+        cells -= seen
+    return out
+
+
+def hole_states(h, w, max_app):
+    """Partitions in which one block encloses another: a ring around an inner rectangle, extended by every connected
+    choice of up to max_app outside cells (appendages: bridges, tails); the inner rectangle is one block (or single cells),
+    the remaining outside cells form their connected components (or single cells)."""
+    allc = [(y, x) for y in range(h) for x in range(w)]
+    out = []
+    for ih in (1, 2):
+        for iw in (1, 2):
+            for y0 in range(1, h - ih):
+                for x0 in range(1, w - iw):
+                    inner = [(y, x) for y in range(y0, y0 + ih) for x in range(x0, x0 + iw)]
+                    box = [(y, x) for y in range(y0 - 1, y0 + ih + 1) for x in range(x0 - 1, x0 + iw + 1)]
+                    ring = [c for c in box if c not in inner]
+                    outside = [c for c in allc if c not in box]
+                    for k in range(0, min(max_app, len(outside)) + 1):
+                        for app in itertools.combinations(outside, k):
+                            big = ring + list(app)
+                            if len(comps(big)) != 1:
+                                continue
+                            rest = [c for c in outside if c not in app]
+                            for inner_blocks in ([sorted(inner)], [[c] for c in inner]):
+                                for rest_blocks in (comps(rest), [[c] for c in rest]):
+                                    st = [sorted(big)] + inner_blocks + rest_blocks
+                                    if st not in out:
+                                        out.append(st)
+    return out
+
+
+def notch_states(h, w, positions):
+    """One big block = the board minus a single cell (a notch in an edge, or an enclosed cell), the single cell its own block."""
+    allc = [(y, x) for y in range(h) for x in range(w)]
+    out = []
+    for c in positions:
+        rest = [d for d in allc if d != c]
+        if len(comps(rest)) == 1:
+            out.append([rest, [c]])
+    return out
+
+
+def explore_states(part, h, w, states, cfg, max_offsets, label):
+    """Every update proposed from each of the given states (no closure): invariant on every result."""
+    from cspuz.generator import segmentation as seg
+
+    saved = save_source(seg)
+    case = {"board": [h, w], "config": list(cfg), "family": label}
+    try:
+        b = make_builder(h, w, cfg)
+        for blocks in states:
+            if invariant(blocks, h, w, cfg) is not None:
+                continue
+            succ = successors(part, b, [list(x) for x in blocks], h, w, cfg, case, max_offsets)
+            for k, (val, upd) in succ.items():
+                why = invariant(val, h, w, cfg)
+                if why:
+                    part.violation("update(%s):%s" % (label, why), dict(case, state=[list(x) for x in blocks], update=upd), {"result": val})
+            part.add("states", (h, w, cfg, label, canon(blocks)))
+        part.count("configs_explored")
+    finally:
+        restore_source(seg, saved)
+
+
 PARTIAL = [(2, 3, ((0, 2),)), (3, 3, ((1, 1),)), (3, 4, ((0, 3), (1, 3), (2, 3))), (2, 4, ((0, 1), (1, 3))), (3, 3, ((0, 0), (2, 2))), (1, 5, ((0, 2),))]
 
 
@@ -392,6 +474,14 @@ def configs(h, w, tier):
 
 
 def worker(shard, part):
+    if shard[0] == "holes":
+        _, h, w, max_app, lo, hi = shard
+        explore_states(part, h, w, hole_states(h, w, max_app)[lo:hi], (None, None, None, None), 24, "holes")
+        return
+    if shard[0] == "notch":
+        _, h, w, positions, max_offsets = shard
+        explore_states(part, h, w, notch_states(h, w, positions), (None, None, None, None), max_offsets, "notch")
+        return
     if shard[0] == "partial":
         _, h, w, holes, cfg = shard
         explore_partial(part, h, w, holes, cfg, 4000)
@@ -428,6 +518,14 @@ def main(tier, seed, only=None):
             ([] if tier == "quick" else [(1, 300, "singles"), (4, 130, "snake-halves"), (20, 20, "singles"), (70, 2, "snake-halves")]):
         for stride in (1, 5):
             shards.append(("walk", h, w, (None, None, None, None), 10 if tier == "quick" else 60, stride, start))
+    # state families (no closure): blocks with holes and appendages; almost-rectangular big blocks with all seed pairs
+    for (h, w, max_app) in ([(3, 5, 3), (5, 3, 3), (4, 4, 3), (4, 5, 2)] if tier == "quick" else [(3, 5, 6), (5, 3, 6), (4, 4, 7), (4, 5, 4), (5, 4, 4), (5, 5, 3), (5, 6, 2), (3, 6, 4)]):
+        n = len(hole_states(h, w, max_app))
+        for lo in range(0, n, 60):
+            shards.append(("holes", h, w, max_app, lo, lo + 60))
+    for (h, w, positions) in ([(4, 4, ((0, 1), (1, 1), (0, 0))), (7, 8, ((0, 3),)), (7, 8, ((3, 3),)), (6, 9, ((5, 4),))] if tier == "quick" else
+                              [(4, 4, tuple((y, x) for y in range(4) for x in range(4)))] + [(7, 8, ((y, x),)) for y in range(0, 4) for x in range(0, 4)] + [(6, 9, ((5, 4),)), (8, 8, ((0, 4),)), (8, 8, ((4, 4),)), (5, 11, ((0, 5),)), (10, 6, ((4, 0),))]):
+        shards.append(("notch", h, w, positions, 500 if (tier == "quick" and h * w > 20) else None))
     for (h, w, holes) in PARTIAL:
         for cfg in ((None, None, None, None), (None, None, 1, 3), (2, 4, None, None), (None, 3, 2, None)):
             shards.append(("partial", h, w, holes, cfg))
@@ -439,7 +537,7 @@ def main(tier, seed, only=None):
         "over updates proposed by the real candidates(), the two seeds of every split_block call swept over all n^2 pairs, every state "
         "expanded in two presentations (canonical, reversed).  Invariant per state: partition, connected blocks, count and sizes in bounds; "
         "per transition: source value and earlier results unchanged.  Scale family: deterministic walks of 150 (thorough 400) steps on 5x5, 4x8, 10x10 "
-        "(thorough 17x17, 1x40) boards under 6 configurations, judging every proposed update of every visited state; also boards 2x70 / 3x66 and partitions with 272 / 300 single-cell rooms given as initial_blocks.  Partial cover: initial_blocks that leave cells of the board uncovered (6 hole patterns x 4 configurations), BFS of depth 3 from every valid partition of the covered cells; every value must partition exactly the covered cells." % (maxcells, " (boards <= 4 cells)" if tier == "quick" else ""),
+        "(thorough 17x17, 1x40) boards under 6 configurations, judging every proposed update of every visited state; also boards 2x70 / 3x66 and partitions with 272 / 300 single-cell rooms given as initial_blocks.  Partial cover: initial_blocks that leave cells of the board uncovered (6 hole patterns x 4 configurations), BFS of depth 3 from every valid partition of the covered cells; every value must partition exactly the covered cells.  State families (every proposed update judged, no closure): partitions with a block that encloses another (ring around an inner 1x1 .. 2x2 rectangle on 3x5 .. 4x5 boards, thorough to 5x6) extended by every connected choice of a few outside cells; a board minus one cell as one block (4x4 all positions; 7x8, 6x9 selected positions, thorough more) with all seed pairs of the split (quick: 500 evenly spaced pairs on the 7x8 / 6x9 boards)." % (maxcells, " (boards <= 4 cells)" if tier == "quick" else ""),
     )
     run.assumptions = [
         "canonical state = sorted tuple of sorted blocks; sound because the set of proposed successor partitions is independent of block / cell "
@@ -447,7 +545,8 @@ def main(tier, seed, only=None):
         "allow_unmet_constraints_first=True is outside the property (it promises nothing about the first value)",
         "initial_blocks covering only part of the board (the builder supports it: uncovered cells belong to no block) are judged against the covered cells",
     ]
-    par.run_shards(run, worker, shards, seed)
+    first = [sh for sh in shards if sh[0] in ("notch", "walk") and sh[1] * sh[2] >= 50]
+    par.run_shards(run, worker, [sh for sh in shards if sh not in first], seed, first=first)
     cov = {
         "states": run.n("states"),
         "transitions": run.c("transitions"),
